@@ -6,12 +6,18 @@ missing). Raw-source programs: they take no part in the runtime stage (the runne
 
 
 def plan(tier):
-    return 6 if tier == "quick" else 60
+    return 8 if tier == "quick" else 64
 
 
 def make(rng, name):
     M, U = name, name.upper()
     n = rng.choice([2, 3, 3, 4])
+    # the first configuration type of each program walks through the combinations in which attribute and registration
+    # disagree (seeded change C19-4 lost `.required()` over an attribute saying `default_if_missing`)
+    PRIORITY = [(True, False, ["required"]), (False, False, ["default_if_missing"]), (True, True, ["required"]),
+                (True, False, ["default_if_missing", "required"]), (False, True, ["required", "default_if_missing"]),
+                (False, False, ["include_if_unused"]), (True, False, []), (False, False, ["required"])]
+    idx = int(name[1:]) if name[1:].isdigit() else 0
     cfgs = []
     for i in range(n):
         c = {"i": i, "key": "%s_k%d" % (M, i), "attr_default": rng.random() < 0.5, "attr_include": rng.random() < 0.4,
@@ -20,6 +26,9 @@ def make(rng, name):
                                 ["default_if_missing", "required"], ["required", "default_if_missing"],
                                 ["include_if_unused", "required"]]),
              "used": rng.random() < 0.6, "imported": False}
+        if i == 0:
+            c["attr_default"], c["attr_include"], c["reg"] = PRIORITY[idx % len(PRIORITY)][0], PRIORITY[idx % len(PRIORITY)][1], list(PRIORITY[idx % len(PRIORITY)][2])
+            c["used"] = True
         cfgs.append(c)
     if not any(c["used"] for c in cfgs):
         cfgs[0]["used"] = True
